@@ -21,7 +21,8 @@ CONSTANTS Tok,       \* token alphabet of the full enumeration
           TokRed,    \* reduced alphabet (one representative per class) ...
           LenRed,    \* ... enumerated up to this (larger) length
           LenUri,    \* URI cases: rest sequences over TokRed up to this length
-          LenName    \* name graph: conversion paths up to this length
+          LenName,   \* name graph: conversion paths up to this length (4 plain key classes)
+          LenNameW   \* ... and up to this length for EVERY binary key class
 
 (* ------------------------------------------------------------------ token classes -- *)
 NoCid == <<"none", 0>>
@@ -113,21 +114,112 @@ BadForms == {"CidDagPb",        \* same multihash, codec dag-pb: NameFromCid and
              "Garbage", "Empty",
              "IpfsPrefixed"}    \* "/ipfs/" + String()
 Keys == {"rsa2048", "ed25519", "secp256k1", "ecdsa"}
-\* model of an edge: identity on the name (that is the property); canonical text is form "String"
-Via(edge, name) == name
+
+(* ---- binary level.  A name IS a binary multihash (a sequence of bytes 0..255); the routing
+   key is the ASCII bytes of "/ipns/" followed by those raw bytes (no multibase).  The laws are
+   stated over an abstract universe of binary keys described by BYTE-VALUE CLASSES of the two
+   ends of the key: the byte 0x2f ('/', the separator of the routing-key prefix), 0x00, 0xff,
+   the six bytes "/ipns/" themselves, or "any" other byte.  The harness must find / construct
+   a real peer ID for every class (brute-forced key pairs, identity multihashes of chosen
+   public-key bytes, sha2-256 digests found by search); phase T re-checks InClass and the
+   byte-level results below on the CONCRETE bytes it used.                                   *)
+Prefix  == <<47, 105, 112, 110, 115, 47>>        \* "/ipns/"
+BClass  == {"sl", "z", "ff", "ipns", "any"}
+Single  == BClass \ {"ipns"}
+Special == {47, 0, 255}
+ClassBytes(cl) == CASE cl = "sl"   -> <<47>>
+                    [] cl = "z"    -> <<0>>
+                    [] cl = "ff"   -> <<255>>
+                    [] cl = "ipns" -> Prefix
+                    [] OTHER       -> <<>>       \* "any": one byte outside Special
+\* key classes: kt = framing of the multihash, fst / lst = class of the first / last payload bytes
+\*   ed25519   identity multihash of the 36-byte key protobuf: every class at both ends
+\*   secp256k1 identity multihash, 33-byte compressed point (first byte 2 or 3)
+\*   ecdsa     sha2-256 of the key protobuf (real keys: one end constrained at a time)
+\*   rsa2048   sha2-256 of the key protobuf (one real key)
+\*   sha256    sha2-256 digest found by search (what RSA / ECDSA peer IDs look like), both ends
+\*   rawmh     a multihash whose OWN first byte is '/' (hash code 0x2f; NameFromPeer / NameFromCid
+\*             accept any well-framed multihash); fst = "ipns": the multihash begins with "/ipns/"
+KeyClasses ==
+       [kt : {"ed25519"}, fst : BClass, lst : BClass]
+  \cup [kt : {"secp256k1"}, fst : {"any"}, lst : Single]
+  \cup {k \in [kt : {"ecdsa"}, fst : Single, lst : Single] : k.fst = "any" \/ k.lst = "any"}
+  \cup [kt : {"rsa2048"}, fst : {"any"}, lst : {"any"}]
+  \cup [kt : {"sha256"}, fst : Single, lst : Single]
+  \cup [kt : {"rawmh"}, fst : {"sl", "ipns"}, lst : BClass]
+Plain(k) == k.kt \in Keys /\ k.fst = "any" /\ k.lst = "any"    \* the classes walked to depth LenName
+Hdr(k)  == CASE k.kt = "ed25519"   -> <<0, 36, 8, 1, 18, 32>>
+             [] k.kt = "secp256k1" -> <<0, 37, 8, 2, 18, 33>>
+             [] k.kt = "rawmh"     -> IF k.fst = "ipns" THEN <<47, 105>> ELSE <<47, 40>>
+             [] OTHER              -> <<18, 32>>
+PLen(k) == CASE k.kt = "secp256k1" -> 33
+             [] k.kt = "rawmh"     -> IF k.fst = "ipns" THEN 105 ELSE 40
+             [] OTHER              -> 32
+\* constrained bytes right after the header (rawmh: its class is carried by the header itself)
+Lead(k) == IF k.kt = "rawmh" THEN (IF k.fst = "ipns" THEN <<112, 110, 115, 47>> ELSE <<>>)
+           ELSE ClassBytes(k.fst)
+InClass(b, k) ==
+  LET h == Hdr(k)  n == Len(h) + PLen(k)  ld == Lead(k)  tr == ClassBytes(k.lst) IN
+  /\ Len(b) = n /\ \A i \in 1..n : b[i] \in 0..255
+  /\ SubSeq(b, 1, Len(h)) = h
+  /\ SubSeq(b, Len(h) + 1, Len(h) + Len(ld)) = ld
+  /\ SubSeq(b, n - Len(tr) + 1, n) = tr
+  /\ (k.fst = "any" => b[Len(h) + 1] \notin Special)
+  /\ (k.lst = "any" => b[n] \notin Special)
+  /\ (k.kt = "secp256k1" => b[Len(h) + 1] \in {2, 3})
+\* the model's representative of a class (filler 'A')
+Rep(k) == LET ld == IF k.fst = "any" THEN (IF k.kt = "secp256k1" THEN <<2>> ELSE <<65>>) ELSE Lead(k)
+              tr == IF k.lst = "any" THEN <<65>> ELSE ClassBytes(k.lst)
+          IN Hdr(k) \o ld \o [i \in 1..(PLen(k) - Len(ld) - Len(tr)) |-> 65] \o tr
+
+\* multihash framing: <varint code><varint length><exactly length bytes>.  Only one-byte varints
+\* occur in the universe (OneByteFraming is asserted on every input of phase T).
+OneByteFraming(b) == IF Len(b) < 2 THEN TRUE ELSE b[1] < 128 /\ b[2] < 128
+MhFramed(b) == IF Len(b) < 2 THEN FALSE ELSE b[1] < 128 /\ b[2] < 128 /\ Len(b) = 2 + b[2]
+NameBad == [ok |-> FALSE, mh |-> <<>>]
+FromBytes(b) == IF MhFramed(b) THEN [ok |-> TRUE, mh |-> b] ELSE NameBad
+HasPrefix(d, p) == Len(d) >= Len(p) /\ SubSeq(d, 1, Len(p)) = p
+RoutingKeyOf(b) == Prefix \o b
+\* exactly ONE leading "/ipns/" is removed and nothing else; the rest must be the whole multihash
+RkRest(d) == SubSeq(d, Len(Prefix) + 1, Len(d))
+FromRoutingKey(d) == IF HasPrefix(d, Prefix) THEN FromBytes(RkRest(d)) ELSE NameBad
+\* byte strings derived from a key that are handed to NameFromRoutingKey
+RkVariants == {"exact", "plusSlash", "minusLast", "doublePrefix", "slashFirst", "bare", "pk", "upper", "noSlash"}
+RkInput(v, b) == CASE v = "exact"        -> Prefix \o b
+                   [] v = "plusSlash"    -> Prefix \o b \o <<47>>
+                   [] v = "minusLast"    -> Prefix \o SubSeq(b, 1, Len(b) - 1)
+                   [] v = "doublePrefix" -> Prefix \o Prefix \o b
+                   [] v = "slashFirst"   -> <<47>> \o Prefix \o b
+                   [] v = "bare"         -> b
+                   [] v = "pk"           -> <<47, 112, 107, 47>> \o b
+                   [] v = "upper"        -> <<47, 73, 80, 78, 83, 47>> \o b
+                   [] v = "noSlash"      -> <<47, 105, 112, 110, 115>> \o b
+\* text forms: a multibase / base58 alphabet never contains '/', so a text form is an opaque
+\* injective encoding of the bytes, optionally behind the textual "/ipns/" prefix
+ToText(e, b) == [ns |-> e \in {"StringNs", "Path"}, of |-> b]
+FromText(t)  == FromBytes(t.of)
+\* the legacy base58 multihash text exists for identity / sha2-256 multihashes only
+EdgesFor(k) == IF k.kt = "rawmh" THEN Edges \ {"B58", "PathSeg"} ELSE Edges
+
+\* model of an edge on the binary name; the property says every edge is the identity
+Via(edge, b) == CASE edge = "RoutingKey"      -> FromRoutingKey(RoutingKeyOf(b))
+                  [] edge \in {"Peer", "Cid"} -> FromBytes(b)
+                  [] OTHER                    -> FromText(ToText(edge, b))
 RECURSIVE Walk(_, _)
-Walk(es, name) == IF es = <<>> THEN name ELSE Walk(Tail(es), Via(Head(es), name))
+Walk(es, b) == IF es = <<>> THEN [ok |-> TRUE, mh |-> b]
+               ELSE LET r == Via(Head(es), b) IN IF r.ok THEN Walk(Tail(es), r.mh) ELSE r
 
 (* ------------------------------------------------------------------ case space ----- *)
 (* A case is grown token by token (every prefix is itself a case), so TLC's breadth-first
    search enumerates ALL token sequences up to the bound of the family:
      "p"/full : sequences over Tok    up to LenFull      "p"/red : over TokRed up to LenRed
      "u"      : scheme x separator x rest over TokRed up to LenUri
-     "n"      : key type x conversion path over Edges up to LenName     "x" : rejected forms *)
+     "n"      : binary key class x conversion path over Edges up to LenName (plain classes) / LenNameW (all)
+     "x"      : rejected forms        ("b" : phase T only, a concrete binary key)              *)
 VARIABLE c
 Init == \/ c \in [k : {"p"}, a : {"full", "red"}, t : {<<>>}]
         \/ c \in [k : {"u"}, sch : Schemes, sep : Seps, t : {<<>>}]
-        \/ c \in [k : {"n"}, key : Keys, es : {<<>>}]
+        \/ c \in [k : {"n"}, key : KeyClasses, es : {<<>>}]
         \/ c \in [k : {"x"}, key : Keys, form : BadForms]
 Next == \/ /\ c.k = "p" /\ c.a = "full" /\ Len(c.t) < LenFull
            /\ \E x \in Tok : c' = [c EXCEPT !.t = Append(@, x)]
@@ -135,15 +227,15 @@ Next == \/ /\ c.k = "p" /\ c.a = "full" /\ Len(c.t) < LenFull
            /\ \E x \in TokRed : c' = [c EXCEPT !.t = Append(@, x)]
         \/ /\ c.k = "u" /\ Len(c.t) < LenUri
            /\ \E x \in TokRed : c' = [c EXCEPT !.t = Append(@, x)]
-        \/ /\ c.k = "n" /\ Len(c.es) < LenName
-           /\ \E x \in Edges : c' = [c EXCEPT !.es = Append(@, x)]
+        \/ /\ c.k = "n" /\ Len(c.es) < (IF Plain(c.key) THEN LenName ELSE LenNameW)
+           /\ \E x \in EdgesFor(c.key) : c' = [c EXCEPT !.es = Append(@, x)]
 Spec == Init /\ [][Next]_c
 
 \* what the real code must show for case c
 Expect ==
   CASE c.k = "p" -> [k |-> "p", t |-> c.t, p |-> Parse(c.t), sg |-> Segments(c.t)]
     [] c.k = "u" -> [k |-> "u", sch |-> c.sch, sep |-> c.sep, t |-> c.t, p |-> ParseURI(c.sch, c.t)]
-    [] c.k = "n" -> [k |-> "n", key |-> c.key, es |-> c.es, same |-> Walk(c.es, c.key) = c.key]
+    [] c.k = "n" -> [k |-> "n", key |-> c.key, es |-> c.es, same |-> Walk(c.es, Rep(c.key)) = [ok |-> TRUE, mh |-> Rep(c.key)]]
     [] c.k = "x" -> [k |-> "x", key |-> c.key, form |-> c.form, ok |-> FALSE]
 
 (* ------------------------------------------------------------------ the property --- *)
@@ -157,7 +249,16 @@ SameRootCid == P.ok /\ ~P.mut => /\ P.cid # NoCid /\ P.cid = CidOf(P.segs[2])
 MutableHasNoCid == P.ok /\ P.mut => P.ns = "ipns" /\ P.cid = NoCid
 UriEqualsPath == c.k = "u" /\ SchemeNs(c.sch) # "" =>
                    ParseURI(c.sch, c.t) = Parse(<<"e", SchemeNs(c.sch)>> \o c.t)
-NameRoundTrip == c.k = "n" => Walk(c.es, c.key) = c.key
+NameRoundTrip == c.k = "n" => Walk(c.es, Rep(c.key)) = [ok |-> TRUE, mh |-> Rep(c.key)]
+\* binary laws; b = the model's representative (phases M, G) or the concrete bytes of a real key (phase T)
+KeyBytes == IF c.k = "n" THEN Rep(c.key) ELSE c.mh
+BinaryLaws == (c.k = "n" /\ c.es = <<>>) \/ c.k = "b" =>
+  LET b == KeyBytes IN
+  /\ InClass(b, c.key) /\ MhFramed(b)
+  /\ FromRoutingKey(RoutingKeyOf(b)) = [ok |-> TRUE, mh |-> b]            \* round trip, whatever the bytes
+  /\ \A v \in RkVariants : LET d == RkInput(v, b)  r == FromRoutingKey(d) IN
+        /\ (r.ok => RoutingKeyOf(r.mh) = d)                              \* exact inverse: no second spelling
+        /\ (v \in {"plusSlash", "minusLast", "pk", "upper"} => ~r.ok)
 \* a trailing "/" is kept exactly when the input ended with one (documented for NewPath)
 TrailingSlashKept == c.k = "p" /\ P.ok => (P.tr <=> EndsInSlash(c.t))
 
